@@ -290,6 +290,17 @@ def run_ens2prob(desc, ctx):
         if not check_locs(ctx, "ens2prob", out, None, locmeta, case):
             continue
         sidx = {float(v): j for j, v in enumerate(out["location"].tolist())}
+        # each cdf / x column belongs to the value the file's own threshold / quantile coordinate gives it: the coordinates must
+        # hold exactly the requested values (in whatever order the script chooses)
+        sthr = [float(v) for v in out.get("threshold", np.zeros(0)).tolist()]
+        sqs = [float(v) for v in out.get("quantile", np.zeros(0)).tolist()]
+        ctx.count("ens2prob_coordinate_checks")
+        if sorted(sthr) != sorted(float(t_) for t_ in thr) or any(abs(u - v) > 1e-6 for u, v in zip(sorted(sqs), sorted(qs))) or len(sqs) != len(qs):
+            ctx.violation("ens2prob-coordinates", "requested thresholds %s / quantiles %s, the file's coordinates are %s / %s" % (thr, qs, sthr, sqs), case)
+            continue
+        thr_req = thr
+        thr = sthr
+        qcol = [min(range(len(sqs)), key=lambda j_: abs(sqs[j_] - q_)) for q_ in qs]
         for a, t in enumerate(inp["times"]):
             for b, l in enumerate(inp["leadtimes"]):
                 for loc in inp["locs"]:
@@ -321,7 +332,7 @@ def run_ens2prob(desc, ctx):
                         x = out["x"][a, b, c, :]
                         prevq = None
                         for j, q in enumerate(qs):
-                            g = float(x[j])
+                            g = float(x[qcol[j]])
                             if g != g or not (min(present) - 1e-6 <= g <= max(present) + 1e-6) or (prevq is not None and g < prevq - 1e-6):
                                 ctx.violation("ens2prob-quantile-invariant|%s" % ("M1" if M == 1 else "M>1"), "quantiles %s at levels %s: outside the ensemble range or decreasing "
                                               "(members %s)" % (list(x), qs, sorted(present)), case)
